@@ -2117,6 +2117,24 @@ impl Recipe {
         }
         v
     }
+    /// … and per check one trigger inside a never-called function with several return sites
+    pub fn always_isolated() -> Vec<Recipe> {
+        let mut v = Vec::new();
+        for (i, c) in GADGETS.iter().enumerate() {
+            let variant = ["isolated", "isolated3", "isolatedind"][i % 3];
+            v.push(Recipe::special(&format!("{}:{}", variant, c), [Kind::Pie, Kind::Exec][i % 2], 5000 + i as u64));
+        }
+        for (i, variant) in ["isolated", "isolated3", "isolatedind"].iter().enumerate() {
+            v.push(Recipe::special(&format!("{}:CWE252", variant), Kind::Pie, 6000 + i as u64));
+        }
+        v
+    }
+    pub fn random_isolated(rng: &mut Rng) -> Recipe {
+        let c = *rng.pick(&GADGETS);
+        let variant = *rng.pick(&["isolated", "isolated3", "isolatedind"]);
+        let kind = Recipe::random_kind(rng);
+        Recipe::special(&format!("{}:{}", variant, c), kind, rng.next())
+    }
     pub fn random_deep_chain(rng: &mut Rng) -> Recipe {
         let kind = Recipe::random_kind(rng);
         Recipe::special("deep_chain", kind, rng.next())
@@ -2283,6 +2301,60 @@ pub fn gen_special(rng: &mut Rng, kind: Kind, name: &str) -> Input {
                 *t = sj;
             }
             funcs.push(FuncG { name: "main".into(), blocks, shared: vec![], cconv: Some("__stdcall"), no_blocks: false });
+        }
+        // a check trigger inside a function that is never called directly (exported / only reachable through an
+        // indirect call): its return sites are "isolated"; the function has 2 or 3 return instructions that the
+        // values produced by the trigger reach.  "isolated:<check>", "isolated3:<check>", "isolatedind:<check>"
+        n if n.starts_with("isolated") => {
+            let variant = n.split(':').next().unwrap_or("isolated").to_string();
+            let check = n.split(':').nth(1).unwrap_or("CWE252").to_string();
+            let nret = if variant == "isolated3" { 3 } else { 2 };
+            let mut main_ins = g.prologue(0x20);
+            if variant == "isolatedind" {
+                main_ins.push(g.i(vec![op(r8("RAX"), "COPY", vec![V::Ram(DATA_TAG, 8)])]));
+                main_ins.push(g.call_ind(V::Reg("RAX", 8)));
+            }
+            main_ins.push(g.mov_r32i("RAX", 0));
+            let mut ep = g.epilogue(0x20);
+            let last = ep.pop().unwrap();
+            main_ins.extend(ep);
+            funcs.push(FuncG { name: "main".into(), blocks: to_blocks(main_ins, last), shared: vec![], cconv: Some("__stdcall"), no_blocks: false });
+            let lkm = kind == Kind::Lkm && false;
+            let mut w = g.prologue(0x70);
+            w.push(g.store("RBP", -0x18, V::Reg("RDI", 8)));
+            if check == "CWE252" {
+                let s = g.rostr("42");
+                w.push(g.mov_ri("RDI", s));
+                w.push(g.call_ext("atoi"));
+                w.push(g.mov_rr("RBX", "RAX"));
+                w.push(g.mov_r32i("RAX", 0));
+            } else {
+                w.extend(g.gadget(&check, lkm));
+                w.push(g.mov_rr("RBX", "RAX"));
+            }
+            w.push(g.test(reg("R13", 4), reg("R13", 4)));
+            // blocks: [.. jcc -> C] [D: ret] [C: (jcc -> E) ret] [E: ret]
+            let t0 = g.term(Tm::Jcc(V::Reg("ZF", 1), 0));
+            let mut blocks = to_blocks(w, t0);
+            let jcc_blk = blocks.len() - 1;
+            let d = g.epilogue(0x70);
+            blocks.push(BlockG { ins: d, suffix: None });
+            let c_idx = blocks.len();
+            if let Some(Tm::Jcc(_, t)) = blocks[jcc_blk].ins.last_mut().and_then(|i| i.term.as_mut()) {
+                *t = c_idx;
+            }
+            if nret == 3 {
+                let c = vec![g.test(reg("R14", 4), reg("R14", 4)), g.term(Tm::Jcc(V::Reg("ZF", 1), c_idx + 2))];
+                blocks.push(BlockG { ins: c, suffix: None });
+                let c2 = g.epilogue(0x70);
+                blocks.push(BlockG { ins: c2, suffix: None });
+                let e = g.epilogue(0x70);
+                blocks.push(BlockG { ins: e, suffix: None });
+            } else {
+                let c = g.epilogue(0x70);
+                blocks.push(BlockG { ins: c, suffix: None });
+            }
+            funcs.push(FuncG { name: "exported_worker".into(), blocks, shared: vec![], cconv: Some("__stdcall"), no_blocks: false });
         }
         // one jump kind with a label that points to an address without block / function
         n if n.starts_with("dangling:") => {
